@@ -61,13 +61,14 @@ func (c tlcCnt) flat() map[string]int {
 }
 
 type tlcStep struct {
-	Op   string `json:"op"`
-	Node string `json:"node"`
-	Occ  int    `json:"occ"`
-	Vars IntMap `json:"vars"`
-	Kind string `json:"kind"`
-	N    int    `json:"n"`
-	Pre  tlcCnt `json:"pre"`
+	Op    string   `json:"op"`
+	Node  string   `json:"node"`
+	Occ   int      `json:"occ"`
+	Vars  IntMap   `json:"vars"`
+	Kind  string   `json:"kind"`
+	N     int      `json:"n"`
+	Pre   tlcCnt   `json:"pre"`
+	Cands []IntMap `json:"cands"`
 }
 
 type tlcSched struct {
@@ -85,8 +86,12 @@ func ParseTLCSchedule(line []byte) (*Schedule, error) {
 	}
 	s := &Schedule{Prog: t.Prog, Expect: t.Expect, Final: t.Final.flat()}
 	for _, st := range t.Steps {
-		s.Steps = append(s.Steps, Step{Op: st.Op, Node: st.Node, Occ: st.Occ, Vars: map[string]int(st.Vars),
-			Kind: st.Kind, N: st.N, Pre: st.Pre.flat()})
+		step := Step{Op: st.Op, Node: st.Node, Occ: st.Occ, Vars: map[string]int(st.Vars),
+			Kind: st.Kind, N: st.N, Pre: st.Pre.flat()}
+		for _, c := range st.Cands {
+			step.Cands = append(step.Cands, map[string]int(c))
+		}
+		s.Steps = append(s.Steps, step)
 	}
 	return s, nil
 }
